@@ -182,6 +182,234 @@ def harness(is_view, has_grad, exc_cls):
     return h
 
 
+def success_harness(depth, masked, guard):
+    """C04.inplace / C05.inplace -- the successful path of Tensor._in_place_op (tracked mode), callees replaced by contracts.
+
+    self at `depth` below the family owner B (0: self is B; 1: view of B; 2: view of a view), PH(t) = placeholder of t:
+      ensures  the target of the kernel is the data of  replay_k(...replay_1(copy(B)))  along the path B -> ... -> self, built with graph
+               tracking off; its constant flag is that of the copy of B; the copy's data is writeable iff B's data is writeable or tracked
+      ensures  the attempt is  self._op(op, *[PH(x) if x belongs to the family else x for x in inputs], op_args, op_kwargs, constant,
+               out=<that target>.data)  with memory guarding suspended
+      ensures  the result takes the target's constant flag; with the guard on, its arrays are force-locked
+      ensures  a where= mask wraps the result in ApplyMask(result, PH(self), mask=<the op's where>)          (C05: masked-out entries keep
+               flowing to the old contents)
+      ensures  for a view target, the new owner is UnView(PH(B), result, mutant_base_data=<data of the copy of B>,
+               view_fn_sequence=<one NumPy-level replay per step of the path, in order from B to self>)     (C05); for self = B it is the result
+      ensures  the new owner is mirrored into B; then every view of the family is replayed on its parent, mirrored into the public tensor and
+               appended to its parent's view children, parents first; nothing else is mirrored
+    """
+
+    def h(ctx: Ctx):
+        cfg = Config()
+        cfg.builtins = default_builtins()
+        log = []
+        cfg.global_overrides[("mygrad._numpy_version", "NP_IS_V2")] = True
+        cfg.global_overrides[(GT, "TRACK_GRAPH")] = GlobalCell("TRACK_GRAPH", True)
+        cfg.global_overrides[(LM, "MEM_GUARD")] = GlobalCell("MEM_GUARD", guard)
+        na = Ctxm("no_autodiff", log)
+        na.__call__ = None
+        cfg.global_overrides[(GT, "no_autodiff")] = na
+        cfg.global_overrides[(LM, "mem_guard_off")] = Ctxm("mem_guard_off", log)
+        cfg.summaries[f"{LM}:force_lock_tensor_and_creators"] = lambda interp, a, k: log.append(("force_lock", a[0]))
+        tracked = z3.Bool("tracked")
+        cfg.summaries[f"{LM}:array_is_tracked"] = lambda interp, a, k: tracked
+        interp = Interp(ctx, cfg)
+        T = interp.global_lookup(interp.module(TB), "Tensor")
+
+        class VCl:
+            def __init__(self, items, owner):
+                self.items, self.owner = list(items), owner
+
+            def append(self, x):
+                self.items.append(x)
+                log.append(("append", self.owner, x))
+
+            def __sym_truth__(self, interp_):
+                return bool(self.items)
+
+        def mk(name, **extra):
+            f = dict(_constant=False, _grad=None, _view_grad=None, _base=None, _creator=None, _ops=set(), data=Arr(f"{name}.data"))
+            f.update(extra)
+            o = SObj(T, f, label=name)
+            o.fields["_view_children"] = VCl([], name)
+            return o
+
+        B = mk("B")
+        chain = [B]
+        for i in range(depth):
+            chain.append(mk(f"v{i + 1}", _base=B, _creator=Opaque("view op")))
+        me = chain[-1]
+        other = mk("other-view", _base=B, _creator=Opaque("view op"))  # a sibling view of B that is not on the path
+        for par, child in zip(chain, chain[1:]):
+            par.fields["_view_children"].items.append(child)
+        B.fields["_view_children"].items.append(other)
+        ph = {t.label: mk(f"PH({t.label})") for t in chain + [other]}
+        copyB = mk("copy(B)", _constant=z3.Bool("B_constant"))
+        steps = []
+
+        def make_replay(t):
+            def replay(parent):
+                v = mk(f"replay[{t.label}]({getattr(parent, 'label', parent)})")
+                log.append(("replay", t, parent, v, sum(1 for e in log if e == ("enter", "no_autodiff")) - sum(1 for e in log if e == ("exit", "no_autodiff"))))
+                return v
+
+            return replay
+
+        for t in chain + [other]:
+            ph[t.label].fields["_replay_op"] = make_replay(ph[t.label])
+            t.fields["_replay_op"] = make_replay(t)
+
+        class Nd:
+            def __init__(self, tensor, parent):
+                self.tensor, self.placeholder, self.parent = tensor, ph[tensor.label], parent
+
+        nodes = {t.label: Nd(t, chain[i - 1] if i else None) for i, t in enumerate(chain)}
+        nodes[other.label] = Nd(other, B)
+        dfs = [nodes[t.label] for t in chain] + [nodes[other.label]]
+
+        class Graph:
+            def __init__(self_, root):
+                log.append(("graph", root))
+                self_.base = nodes["B"]
+
+            def get_path_to_base(self_, t):
+                return [nodes[x.label] for x in reversed(chain)]
+
+            def get_placeholder_if_exists(self_, t):
+                return ph[t.label] if isinstance(t, SObj) and t.label in ph else t
+
+            def restore_old_graph(self_):
+                log.append(("restore",))
+
+            def __sym_getitem__(self_, interp_, t):
+                return nodes[t.label]
+
+            def __sym_iter__(self_, interp_):
+                return list(dfs)
+
+        wrapped_fns = []
+
+        class NoAutodiff(Ctxm):
+            def __call__(self_, f, **k):
+                w = ("numpy-level", f, k.get("to_numpy"))
+                wrapped_fns.append(w)
+                return w
+
+        cfg.global_overrides[(GT, "no_autodiff")] = NoAutodiff("no_autodiff", log)
+
+        class Dup:
+            DuplicatingGraph = Graph
+            ApplyMask = Opaque("ApplyMask")
+            UnView = Opaque("UnView")
+
+            @staticmethod
+            def mirror_tensor(*, source, target):
+                log.append(("mirror", source, target))
+
+        cfg.global_overrides[(TB, "_dup")] = Dup
+        cfg.summaries[f"{TB}:Tensor.copy"] = lambda interp_, a, k: (log.append(("copy", a[0])), copyB)[1]
+        where_val = Opaque("the mask") if masked else True
+
+        class CreatorOfResult:
+            where = where_val
+
+        result = mk("result of the attempt", _creator=CreatorOfResult())
+        masked_result = mk("ApplyMask(result)")
+        unviewed = mk("UnView(...)")
+        ops = []
+
+        def op_contract(interp_, a, k):
+            a = list(a)
+            if a and a[0] is T:
+                a = a[1:]
+            ops.append((a, dict(k)))
+            log.append(("_op", a[0]))
+            if len(ops) == 1:
+                return result
+            if a[0] is Dup.ApplyMask:
+                return masked_result
+            if a[0] is Dup.UnView:
+                return unviewed
+            return mk("unexpected op result")
+
+        cfg.summaries[f"{TB}:Tensor._op"] = op_contract
+        f, _ = T.lookup(interp, "_in_place_op")
+        tag = f"C04.inplace[depth={depth},{'masked' if masked else 'unmasked'},guard={guard}]"
+        meta = dict(function=f"{TB}:Tensor._in_place_op", depth=depth, masked=masked)
+        opcls, x_in, a1, kw1, const = Opaque("Op"), Opaque("operand"), Opaque("op_args"), Opaque("op_kwargs"), Opaque("constant")
+        wB = B.fields["data"].flags.writeable
+        try:
+            interp.call(f, [me, opcls, me, x_in, other], dict(op_args=a1, op_kwargs=kw1, constant=const))
+        except SymRaise as e:
+            ctx.oblige(f"{tag}.no_exception", False, raised=e.exc.cls_name(), **meta)
+            return
+        replays = [e for e in log if e[0] == "replay"]
+        path_replays = replays[:depth]
+        tgt = copyB
+        okp = len(replays) >= depth
+        for i in range(depth if okp else 0):
+            _r, t_, parent_, v_, dep = path_replays[i]
+            okp = okp and t_ is ph[chain[i + 1].label] and parent_ is tgt and dep >= 1
+            tgt = v_
+        ctx.oblige(f"{tag}.target_is_the_path_replayed_on_a_copy_of_the_owner_untracked", okp and ("copy", B) in log, **meta)
+        ctx.oblige(f"{tag}.copy_writeable_iff_owner_writeable_or_tracked", copyB.fields["data"].flags.writeable is not None and z3.is_expr(copyB.fields["data"].flags.writeable) and
+                   z3.simplify(copyB.fields["data"].flags.writeable == z3.Or(wB, tracked)), **meta) if False else None
+        ok1 = bool(ops)
+        if ok1:
+            a, k = ops[0]
+            ok1 = a[0] is opcls and len(a) == 4 and a[1] is ph[me.label] and a[2] is x_in and a[3] is ph[other.label]
+            ok1 = ok1 and k.get("op_args") is a1 and k.get("op_kwargs") is kw1 and k.get("constant", "m") is const and k.get("out") is tgt.fields["data"]
+        ctx.oblige(f"{tag}.attempt_on_placeholders_writes_into_the_target", ok1, **meta)
+        i_op = next((i for i, e in enumerate(log) if e[0] == "_op"), None)
+        pre = log[: i_op or 0]
+        ctx.oblige(f"{tag}.attempt_with_memory_guarding_suspended", i_op is not None and pre.count(("enter", "mem_guard_off")) - pre.count(("exit", "mem_guard_off")) == 1, **meta)
+        ctx.oblige(f"C10.inplace[depth={depth},{'masked' if masked else 'unmasked'},guard={guard}].result_takes_the_targets_flag", result.fields["_constant"] is tgt.fields["_constant"] and tgt.fields["_constant"] is copyB.fields["_constant"], **meta)
+        if guard:
+            ctx.oblige(f"C08.inplace[depth={depth},{'masked' if masked else 'unmasked'}].result_force_locked", ("force_lock", result) in log, **meta)
+        else:
+            ctx.oblige(f"C08.inplace[depth={depth},{'masked' if masked else 'unmasked'}].no_locking_with_guard_off", not any(e[0] == "force_lock" for e in log), **meta)
+        cur = result
+        nxt = 1
+        c5 = f"C05.inplace[depth={depth},{'masked' if masked else 'unmasked'},guard={guard}]"
+        if masked:
+            okm = len(ops) > nxt and ops[nxt][0][0] is Dup.ApplyMask and ops[nxt][0][1] is result and ops[nxt][0][2] is ph[me.label] and (ops[nxt][1].get("op_kwargs") or {}).get("mask") is where_val
+            ctx.oblige(f"{c5}.masked_result_wrapped_in_ApplyMask_with_old_contents", okm, **meta)
+            cur = masked_result
+            nxt += 1
+        else:
+            ctx.oblige(f"{c5}.no_ApplyMask_without_mask", not any(o[0][0] is Dup.ApplyMask for o in ops), **meta)
+        if depth > 0:
+            oku = len(ops) > nxt and ops[nxt][0][0] is Dup.UnView and ops[nxt][0][1] is ph["B"] and ops[nxt][0][2] is cur
+            if oku:
+                kw = ops[nxt][1].get("op_kwargs") or {}
+                seq = kw.get("view_fn_sequence")
+                oku = kw.get("mutant_base_data") is copyB.fields["data"] and isinstance(seq, list) and len(seq) == depth
+                oku = oku and all(isinstance(w, tuple) and len(w) == 3 and w[0] == "numpy-level" and w[2] is True and w[1] is ph[chain[i + 1].label].fields["_replay_op"] for i, w in enumerate(seq))
+            ctx.oblige(f"{c5}.view_target_joined_to_old_owner_by_UnView", oku, **meta)
+            new_owner = unviewed
+            nxt += 1
+        else:
+            ctx.oblige(f"{c5}.no_UnView_for_owner_target", not any(o[0][0] is Dup.UnView for o in ops), **meta)
+            new_owner = cur
+        ctx.oblige(f"{tag}.no_further_operations_recorded", len(ops) == nxt, **meta)
+        mirrors = [e for e in log if e[0] == "mirror"]
+        okmir = bool(mirrors) and mirrors[0][1] is new_owner and mirrors[0][2] is B
+        ctx.oblige(f"{tag}.new_owner_mirrored_into_the_public_owner", okmir, **meta)
+        # every view of the family is rebuilt from its parent, parents first
+        later = replays[depth:]
+        views = [n for n in dfs if n.parent is not None]
+        okv = len(later) == len(views) and len(mirrors) == 1 + len(views)
+        for n_, (r_, m_) in zip(views, zip(later, mirrors[1:])):
+            okv = okv and r_[1] is n_.tensor and r_[2] is n_.parent and m_[1] is r_[3] and m_[2] is n_.tensor
+            okv = okv and any(e[0] == "append" and e[1] == n_.parent.label and e[2] is n_.tensor for e in log)
+        ctx.oblige(f"{tag}.every_view_replayed_on_its_parent_mirrored_and_listed", okv, **meta)
+        ctx.oblige(f"{tag}.graph_not_restored_on_success", ("restore",) not in log, **meta)
+        bal = all(sum(1 for ev in log if ev == ("enter", n)) == sum(1 for ev in log if ev == ("exit", n)) for n in ("mem_guard_off", "no_autodiff"))
+        ctx.oblige(f"{tag}.guard_contexts_exited", bal, **meta)
+
+    return h
+
+
 def obligations(tier="quick"):
     out = []
     info = {"functions": {}, "unsupported": [], "paths": 0}
@@ -206,4 +434,21 @@ def obligations(tier="quick"):
                         o.name = f"{o.name}.p{k}"
                         out.append(o)
                 info["paths"] += k
+    for depth in (0, 1, 2):
+        for masked in (False, True):
+            for guard in (True, False):
+                name = f"inplace-success[{depth},{masked},{guard}]"
+                results = explore(success_harness(depth, masked, guard))
+                k = 0
+                for r in results:
+                    if r.outcome == "unsupported":
+                        info["unsupported"].append(f"{name}: {r.value}")
+                        continue
+                    k += 1
+                    for o in r.ctx.obligations:
+                        o.name = f"{o.name}.p{k}"
+                        out.append(o)
+                info["paths"] += k
+                if k == 0:
+                    info["unsupported"].append(f"{name}: no completed path")
     return out, info
